@@ -119,7 +119,7 @@ Definition plug_case (pu : puniverse) (s : gstate) (plugs : list pkgid) (socket 
 (** the socket imports no two names on one semver track *)
 Definition socket_tracks_distinct (pu : puniverse) (imps : list item) : Prop :=
   tracks_distinct (pu_name_text pu) (map fst imps).
-(** no plug exports two names on one semver track *)
+(** no plug exports two names on one semver track (needed before repair 7db12e7 only; kept for the driver's H= flag) *)
 Definition plug_tracks_distinct (pu : puniverse) (pls : list (list item)) : Prop :=
   Forall (fun exps => tracks_distinct (pu_name_text pu) (map fst exps)) pls.
 
